@@ -204,6 +204,7 @@ type Exec struct {
 	nframes int
 	top     *Frame
 	inlineStack []*ssa.Function
+	closureBinds map[string]Value // captured variables of the closure whose contract is being applied at a call
 }
 
 func (x *Exec) m() Mode { return x.vc.mode }
